@@ -261,8 +261,16 @@ func (f *File) breakSites(rule string, fresh string) []breakSite {
 	case "constassert":
 		texts := []string{"const_assert false; ", "const_assert 1 > 2; ", "const_assert(false); "}
 		for k, txt := range texts {
+			lastDirective := -1
 			for di, d := range f.Decls {
-				_ = di
+				if d.Kind == "directive" {
+					lastDirective = di
+				}
+			}
+			for di, d := range f.Decls {
+				if di <= lastDirective {
+					continue // directives must stay in front of every declaration
+				}
 				out = append(out, breakSite{rule: rule, sub: "module", tok: d.Start, lo: toks[d.Start].Off, hi: toks[d.Start].Off, repl: txt, moduleInserted: true})
 			}
 			for i, t := range toks {
@@ -549,6 +557,9 @@ func (f *File) apply(s breakSite) *Breaking {
 	switch s.rule {
 	case "semicolon", "delimiter":
 		b.Syntax = true
+	}
+	if (s.rule == "constassert" || s.rule == "delimiter") && f.Toks[s.tok].Text == "{" && s.lo == f.Toks[s.tok].End {
+		b.Depth++ // inserted right inside the block this brace opens
 	}
 	if s.exact {
 		if s.expTok >= 0 {
